@@ -21,7 +21,7 @@ ENV = dict(os.environ, CARGO_NET_OFFLINE="true")
 
 def prepare(pid):
     """scratch copy of the working tree with all overlays applied; returns path"""
-    dst = os.path.join(SCRATCH_ROOT, pid, "repo")
+    dst = os.path.join(SCRATCH_ROOT, pid + os.environ.get("VERIF_BUILD_TAG", ""), "repo")
     os.makedirs(dst, exist_ok=True)
     subprocess.run(["rsync", "-a", "--delete", "--exclude", "target", "--exclude", ".git", "--exclude", "html",
                     "--exclude", "python", REPO + "/", dst + "/"], check=True)
@@ -42,7 +42,7 @@ def prepare(pid):
 
 
 def cleanup(pid):
-    shutil.rmtree(os.path.join(SCRATCH_ROOT, pid), ignore_errors=True)
+    shutil.rmtree(os.path.join(SCRATCH_ROOT, pid + os.environ.get("VERIF_BUILD_TAG", "")), ignore_errors=True)
 
 
 def _run(cmd, cwd, timeout):
@@ -191,8 +191,9 @@ def counterexample_for(pid, obligation, conf):
 
 
 def write_replay(pid, k):
-    os.makedirs(os.path.join(VERIF, "replay"), exist_ok=True)
-    path = os.path.join(VERIF, "replay", f"{pid}-kani-{k['harness']}.txt")
+    rdir = os.environ.get("VERIF_REPLAY_DIR") or os.path.join(VERIF, "replay")
+    os.makedirs(rdir, exist_ok=True)
+    path = os.path.join(rdir, f"{pid}-kani-{k['harness']}.txt")
     with open(path, "w") as f:
         f.write(f"property: {pid}\nfailed obligation: kani::{k['harness']}\nengine: Kani 0.68 / CBMC\ncommand: {k['cmd']}\n"
                 f"bound: {k.get('bound','')}\nwhat: {k.get('what','')}\nfailed checks: {k['reason']}\n\n")
